@@ -2,6 +2,7 @@
 Lemmas for C10 (btree content as an ordered map). Core-only.
 -/
 import Gsu.Model.Btree
+import Gsu.Model.BtreeLeaf
 namespace Gsu.Btree
 
 def Sorted (m : List KV) : Prop := m.Pairwise (fun a b => a.1 < b.1)
@@ -306,5 +307,107 @@ theorem build_toList (n : Nat) (l : List KV) : (build n l).toList = l := by
     simp at this
     simp [Tree.toList, this]
   · rw [buildUp_toList, toListKids_leaves, chunk_flatten]
+
+end Gsu.Btree
+
+/-! ### byte sizes of bulk-built leaves -/
+namespace Gsu.Btree
+
+theorem leafSize_le (n p f : Nat) (hn : 1 ≤ n) : leafSize n p f ≤ 4 + 7 * n + f := by
+  unfold leafSize
+  have : p ≤ n * p := Nat.le_mul_of_pos_left p hn
+  omega
+
+theorem leafSize_one (p f : Nat) : leafSize 1 p f = 11 + f := by
+  unfold leafSize; omega
+
+theorem add_first_size (k : Key) : (({} : LB).add k).size = 11 + k.length := by
+  simp [LB.add, LB.size, LB.newPre, leafSize_one]
+
+/-- a key accepted by `tryAdd` leaves a leaf that fits a node and holds at most `split` keys -/
+theorem tryAdd_fits {split : Nat} (hs : split ≤ 100) {b b' : LB} {k : Key}
+    (h : b.tryAdd split k = some b') :
+    b'.size ≤ maxNodeSizeM ∧ b'.n ≤ split ∧ b'.n = b.n + 1 := by
+  unfold LB.tryAdd at h
+  simp only at h
+  split at h
+  · cases h
+  · next hn =>
+    split at h
+    · cases h
+    · next hc =>
+      simp only [Option.some.injEq] at h; subst h
+      refine ⟨?_, by simp [LB.add]; omega, by simp [LB.add]⟩
+      simp only [LB.add, LB.size, LB.newPre]
+      by_cases h0 : b.n = 0
+      · -- first key: the size does not depend on the prefix
+        simp only [h0, if_true, Nat.zero_add] at hc ⊢
+        rw [leafSize_one] at hc ⊢
+        simp only [fieldsLimitM, maxNodeSizeM] at hc ⊢
+        omega
+      · simp only [h0, if_false]
+        by_cases hfl : b.fieldsLen + k.length > fieldsLimitM
+        · have : ¬ leafSize (b.n + 1) (min 255 (commonPrefix b.pre k).length) (b.fieldsLen + k.length)
+              > maxNodeSizeM := fun h2 => hc ⟨hfl, h2⟩
+          omega
+        · have := leafSize_le (b.n + 1) (min 255 (commonPrefix b.pre k).length)
+            (b.fieldsLen + k.length) (by omega)
+          simp only [fieldsLimitM, maxNodeSizeM] at hfl ⊢
+          omega
+
+theorem packLeaves_fits {split : Nat} (hs : split ≤ 100) (h1 : 1 ≤ split) :
+    ∀ (keys : List Key) (b : LB), (∀ k ∈ keys, k.length + 11 ≤ maxNodeSizeM) →
+      b.size ≤ maxNodeSizeM → b.n ≤ split →
+      ∀ p ∈ packLeaves split keys b, p.2 ≤ maxNodeSizeM ∧ p.1 ≤ split := by
+  intro keys
+  induction keys with
+  | nil =>
+    intro b _ hb hn p hp
+    simp only [packLeaves, List.mem_singleton] at hp; subst hp; exact ⟨hb, hn⟩
+  | cons k ks ih =>
+    intro b hk hb hn p hp
+    simp only [packLeaves] at hp
+    have hks : ∀ k ∈ ks, k.length + 11 ≤ maxNodeSizeM := fun x hx => hk x (List.mem_cons_of_mem _ hx)
+    cases ht : b.tryAdd split k with
+    | some b' =>
+      rw [ht] at hp
+      obtain ⟨a, c, _⟩ := tryAdd_fits hs ht
+      exact ih b' hks a c p hp
+    | none =>
+      rw [ht] at hp
+      rcases List.mem_cons.mp hp with rfl | hp'
+      · exact ⟨hb, hn⟩
+      · refine ih _ hks ?_ ?_ p hp'
+        · rw [add_first_size]; have := hk k List.mem_cons_self; omega
+        · simp [LB.add]; exact h1
+
+theorem leaves_fit {split : Nat} (hs : split ≤ 100) (h1 : 1 ≤ split) (keys : List Key)
+    (hk : ∀ k ∈ keys, k.length + 11 ≤ maxNodeSizeM) :
+    ∀ p ∈ leaves split keys, p.2 ≤ maxNodeSizeM ∧ p.1 ≤ split :=
+  packLeaves_fits hs h1 keys {} hk (by simp [LB.size, leafSize, maxNodeSizeM]) (by simp)
+
+/-- no key is lost or duplicated by the packing -/
+theorem packLeaves_count (split : Nat) : ∀ (keys : List Key) (b : LB),
+    ((packLeaves split keys b).map (·.1)).sum = b.n + keys.length := by
+  intro keys
+  induction keys with
+  | nil => intro b; simp [packLeaves]
+  | cons k ks ih =>
+    intro b
+    simp only [packLeaves]
+    cases ht : b.tryAdd split k with
+    | some b' =>
+      simp only
+      have : b'.n = b.n + 1 := by
+        unfold LB.tryAdd at ht; simp only at ht
+        split at ht
+        · cases ht
+        · split at ht
+          · cases ht
+          · simp only [Option.some.injEq] at ht; subst ht; simp [LB.add]
+      rw [ih b', this]; simp; omega
+    | none =>
+      simp only [List.map_cons, List.sum_cons]
+      rw [ih]; simp [LB.add]; omega
 
 end Gsu.Btree
